@@ -191,7 +191,7 @@ def run_case(case, ctx):
     if case["init"] == "indicator":
         # cluster-indicator style start: columns with disjoint supports in some modes (inner products exactly 0.0)
         for n in range(N):
-            if rng.random() < 0.7:
+            if rng.random() < 0.7 and shape[n] >= R:          # (every component owns a row: a guess with a zero column is not admissible)
                 F = np.zeros((shape[n], R))
                 owner = rng.integers(0, R, size=shape[n])
                 owner[:R] = np.arange(R) if shape[n] >= R else owner[:R]
@@ -226,6 +226,13 @@ def run_case(case, ctx):
                      optdims=None if optd is None else optd.copy(), fixsigns=case["fixsigns"], printitn=case["printitn"])
         if D.breakdown:
             ctx.tag("als-breakdown(zero MTTKRP column: out of domain)")
+            ctx.check(state_digest(D) == data_digest, "cp_als", "MUTATED", "data tensor changed by cp_als", who="data")
+            return
+        if not r.ok and case["init"] == "indicator" and isinstance(r.exc, np.linalg.LinAlgError):
+            # a guess with exact zeros (disjoint supports) can make two components coincide exactly outside the mode being updated (seen:
+            # Hadamard Gram [[1,0,1],[0,1,0],[1,0,1]] in the first sweep on 0/1 data): that least-squares system has no unique solution
+            # and ALS is not defined from this guess.  Generic guesses cannot do this, so there a singular system stays a violation
+            ctx.tag("als-breakdown(singular normal equations from a guess with exact zeros: out of domain)")
             ctx.check(state_digest(D) == data_digest, "cp_als", "MUTATED", "data tensor changed by cp_als", who="data")
             return
         if not r.ok:
